@@ -43,7 +43,7 @@ from krrood.adapters.json_serializer import (  # noqa: E402
 )
 
 PID = "C18"
-LEAN_MODULES = ["KrroodVerif.Props.C18"]
+LEAN_MODULES = ["KrroodVerif.Props.C18", "KrroodVerif.Props.C18Tables"]
 THEOREMS = [
     "KrroodVerif.Json.C18_roundtrip",
     "KrroodVerif.Json.C18_tag",
@@ -53,7 +53,64 @@ THEOREMS = [
     "KrroodVerif.Json.C18_history",
     "KrroodVerif.Json.C18_registered_wf",
     "KrroodVerif.Json.serializable_of_wf",
+    "KrroodVerif.Json.C18_toJson_eq_interp",
+    "KrroodVerif.Json.C18_fromJson_eq_interp",
+    "KrroodVerif.Json.C18_interp_of_dispatch_eq",
+    "KrroodVerif.Json.C18_roundtrips_of_wellformed",
+    "KrroodVerif.Json.C18_of_dispatch_eq",
+    "KrroodVerif.Json.C18_builtin_pair_inverse",
+    "KrroodVerif.Json.tables_roundTrips",
 ]
+
+
+def extra_obligations():
+    """Second tie: regenerate the dispatch tables of `to_json` / `from_json`, the tag composition, the tag-resolution
+    stages and the registry lookup rule from /repo's CURRENT source (Python ast) and have the kernel re-check that they
+    decide every kind of value like the model's tables (`Json.tables`, for which C18_toJson_eq_interp / C18_fromJson_eq_interp
+    prove that the table interpreters ARE `toJson` / `fromJson`) and that they satisfy `RoundTrips`."""
+    import os
+    import subprocess
+    import core
+    from translate import c18_translate as T
+    names = [f"{T.NAMESPACE}.{n}" for n in T.OBLIGATIONS]
+    try:
+        text = T.generate(core.REPO)
+    except (T.TranslationError, SyntaxError, OSError, RecursionError) as e:
+        return [{"name": n, "ok": False, "detail": f"translator rejected the source: {e}"} for n in names]
+    tmp = core.LEAN_DIR / ".lake" / "audit"
+    tmp.mkdir(parents=True, exist_ok=True)
+    table = text[text.find("def tables"):text.find("/-- the current source decides")]
+    res = []
+    # the two `decide` obligations are checked separately (one failing must not hide the other); the two consequences
+    # are checked with them
+    for variant, keep in (("eq", [0, 3]), ("wf", [1, 2])):
+        body = text
+        drop = [n for i, n in enumerate(T.OBLIGATIONS) if i not in keep]
+        for n in drop:  # cut the theorem `n` (from its doc comment to the next doc comment / end)
+            i = body.find(f"theorem {n} ")
+            i = body.rfind("/--", 0, i)
+            j = body.find("/--", body.find(f"theorem {n} "))
+            j = j if j != -1 else body.find(f"end {T.NAMESPACE}")
+            body = body[:i] + body[j:]
+        f = tmp / f"C18Translated_{variant}_{os.getpid()}.lean"
+        mine = [names[i] for i in keep]
+        f.write_text(body + "".join(f"#print axioms {n}\n" for n in mine))
+        try:
+            p = subprocess.run(["lake", "env", "lean", str(f)], cwd=str(core.LEAN_DIR), capture_output=True, text=True, timeout=600)
+        finally:
+            try:
+                f.unlink()
+            except OSError:
+                pass
+        out = " ".join(((p.stdout or "") + (p.stderr or "")).split())
+        for n in mine:
+            m = re.search(r"'" + re.escape(n) + r"' depends on axioms: \[([^\]]*)\]", out)
+            none = re.search(r"'" + re.escape(n) + r"' does not depend on any axioms", out)
+            ax = [a.strip() for a in m.group(1).split(",")] if m else ([] if none else None)
+            ok = p.returncode == 0 and ax is not None and set(ax) <= core.ALLOWED_AXIOMS
+            res.append({"name": n, "ok": ok, "axioms": ax,
+                        "detail": "regenerated tables:\n" + table + (p.stdout or "")[-1500:] + (p.stderr or "")[-800:]})
+    return res
 MODEL_FUNCTION = "Json.toJson / Json.fromJson / Json.resolve / Json.wf / Json.expand / Json.stepOp (Model/Json.lean)"
 TRUSTED = [
     "Lean 4.33 kernel; axioms of each theorem listed under coverage.theorems",
